@@ -1,4 +1,5 @@
 import PwVerif.Model.Util
+import PwVerif.Model.Signal
 /-!
 # Serialisation (transcription of the per-class `__getstate__` / `__setstate__` pipeline)
 
@@ -386,5 +387,45 @@ def WFL : List Node → Prop
   | [] => True
   | n :: ns => n.core.detached = none ∧ WF n ∧ WFL ns
 end
+
+/-! ## connection graphs given by finite tables (driver, concrete examples) -/
+
+def lookupD (t : List (Addr × List Addr)) (a : Addr) : List Addr :=
+  match t.find? fun p => p.1 = a with
+  | some p => p.2
+  | none => []
+
+def CG.ofTables (inT outT : List (Addr × List Addr)) : CG := ⟨lookupD inT, lookupD outT⟩
+
+/-- executable well-formedness check of one flavour (sound for `CGok`, see `cgCheck_sound`) -/
+def cgCheck (inD outD : List Addr) (inT outT : List (Addr × List Addr)) : Bool :=
+  (inT.all fun p => decide (p.1 ∈ inD) && (p.2.all fun o => decide (o ∈ outD)) && decide p.2.Nodup &&
+    (p.2.all fun o => decide (p.1 ∈ lookupD outT o))) &&
+  (outT.all fun q => q.2.all fun a => decide (q.1 ∈ lookupD inT a))
+
+/-! ## what a later run reads
+
+The scheduler of a composite (`Signal.compositeRun`, the model behind C02) is a function of a
+`Signal.Graph`: who every emitting channel fires (in list order), what every all-of trigger waits
+for, the starting nodes.  `toGraph` reads that graph off a live composite: child labels are the
+node ids, an emitting channel `(child, k)` is `4 * child + k` (`ran`, `failed`, `true`, `false`),
+a receiving channel `(child, 1)` is the all-of trigger `accumulate_and_run`, `(child, 0)` is `run`. -/
+
+def toGraph (n : Node) : Signal.Graph :=
+  { conns := fun s => (n.sig.outl (s / 4, s % 4)).map fun a => { node := a.1, acc := a.2 == 1 }
+    accConns := fun i => (n.sig.inl (i, 1)).map fun o => 4 * o.1 + o.2
+    lab := fun s => s
+    starters := n.core.starting
+    sigs := (sOutDom n.children).map fun o => 4 * o.1 + o.2 }
+
+/-- `InputData.fetch` of child input `a`: the value of the first connection that holds data -/
+def firstData (vals : List (Addr × Val)) : List Addr → Option Val
+  | [] => none
+  | o :: os =>
+    match ((vals.find? fun p => p.1 = o).map (·.2) : Option Val) with
+    | some (Val.t x) => some (Val.t x)
+    | _ => firstData vals os
+
+def fetchVal (n : Node) (a : Addr) : Option Val := firstData (outVals n.children) (n.data.inl a)
 
 end PwVerif.Serial
